@@ -242,13 +242,13 @@ impl<
             SeekFrom::Current(offset) => {
                 // A file can be up to 4 GiB - 1 long, so a relative seek can
                 // span more than an i32: compute the target in 64 bits.
-                let target = i64::from(self.offset())
+                let target = i64::from(self.volume_mgr.file_offset(self.raw_file)?)
                     .checked_add(offset)
                     .ok_or(Error::InvalidOffset)?;
                 self.seek_from_start(target.try_into().map_err(|_| Error::InvalidOffset)?)?
             }
         }
-        Ok(self.offset().into())
+        Ok(self.volume_mgr.file_offset(self.raw_file)?.into())
     }
 }
 
